@@ -202,7 +202,8 @@ def parse_out(text):
         elif cur is None:
             continue
         elif w[0] == "burst":
-            b = {"n": w[1], "frames": [], "ns": [], "sess": {}, "topics": {}, "hang": [], "unstuck": [], "injected": [], "goroutines": 0}
+            b = {"n": w[1], "frames": [], "ns": [], "sess": {}, "topics": {}, "hang": [], "unstuck": [], "injected": [], "goroutines": 0,
+                 "parked": [], "abandoned": []}
             cur["bursts"].append(b)
         elif w[0] in ("f", "p", "d"):
             b["frames"].append(w)
@@ -214,13 +215,17 @@ def parse_out(text):
             b["unstuck"].append(int(w[1]))
         elif w[0] == "fatal-hang":
             cur["fatal"] = True
+        elif w[0] == "parked":
+            b["parked"].append((w[2], " ".join(w[3:])))
+        elif w[0] == "abandoned":
+            b["abandoned"].append(int(w[1]))
         elif w[0] == "injected":
             b["injected"].append(int(w[2]))
         elif w[0] == "state" and w[1] == "sess":
             d = dict(p.split("=", 1) for p in w[3:])
             d["subs"] = set(int(x) for x in d["subs"].split(",") if x and not x.startswith("?"))
-            for key in ("user", "term", "closed", "cleaned", "inflight", "detachq", "sendq"):
-                d[key] = int(d[key])
+            for key in ("user", "term", "closed", "cleaned", "inflight", "detachq", "sendq", "dead"):
+                d[key] = int(d.get(key, 0))
             b["sess"][int(w[2])] = d
         elif w[0] == "state" and w[1] == "topic":
             d = dict(p.split("=", 1) for p in w[3:])
@@ -232,6 +237,11 @@ def parse_out(text):
             b["topics"][int(w[2])] = d
         elif w[0] == "goroutines":
             b["goroutines"] = int(w[1])
+            b["complete"] = True
+        elif w[0] == "unblocked-stop":
+            b.setdefault("unblocked_stop", []).append(int(w[1]))
+        elif w[0] == "autounstall":
+            b.setdefault("autounstall", []).append(int(w[1]))
         elif w[0] == "final":
             cur["final"] = dict(p.split("=", 1) for p in w[1:])
         elif w[0] == "end":
@@ -276,7 +286,9 @@ def run_driver(ctx, scns, tag="main", binary=None, extra_env=None, timeout=1500)
             bad = rest[0]
             r = got.get(bad.id, {"bursts": [], "final": None, "ended": False, "fatal": False})
             r["died"] = True
-            r["log"] = "\n".join(x for x in log.split("\n") if not re.match(r"^[IWE]\d{4}/", x))[-3000:]
+            txt = "\n".join(x for x in log.split("\n") if not re.match(r"^[IWE]\d{4}/", x))
+            m = re.search(r"^(fatal error:|panic:)", txt, re.M)
+            r["log"] = txt[m.start():m.start() + 3000] if m else txt[-3000:]
             results[bad.id] = r
             rest = rest[1:]
         todo = rest
@@ -293,16 +305,51 @@ def requests_of(burst_lines):
     return res
 
 
+def exit_possible(sc, k, lines):
+    """can an instance of topic k terminate inside this burst (idle unload injected, {del topic}, {del user},
+    last p2p party unsubscribing)?"""
+    t = sc.topics.get(k)
+    if t is None:
+        return False
+    for l in lines:
+        w = l.split()
+        if w[0] == "i" and w[1] == "unload" and int(w[2]) == k:
+            return True
+        if w[0] == "q":
+            if w[3] == "deluser":
+                return True
+            if w[3] == "deltopic" and int(w[4]) == k:
+                return True
+            if w[3] == "leave" and int(w[4]) == k and w[5] == "1" and t["kind"] == "p2p":
+                return True
+    return False
+
+
+def crash_law(log):
+    """name of the law for a dead driver process, from the head of its log"""
+    if "fatal error: concurrent map" in log:
+        m = re.search(r"goroutine \d+ \[running\]:\n(?:.*\n)*?\S*server\.\(?\*?(\w+)\)?\.(\w+)", log)
+        fn = m.group(2) if m else "unknown"
+        return "concurrent-map-crash-" + fn
+    return "server-crashed-or-hung"
+
+
 def monitor(sc, r):
-    """-> list of (law, burst index, detail)"""
+    """The laws of C14 on what the driver printed at each quiescence. -> list of (law, burst index, detail).
+    Laws with a circumstance in their name are the narrow forms under which a reproduced defect of the
+    server shows (findings/C14.md); everything else keeps the general name."""
     res = []
     if r.get("died"):
-        res.append(("server-crashed-or-hung", len(r["bursts"]) - 1, "driver process ended inside this scenario: " + r.get("log", "")[-1200:]))
+        log = r.get("log", "")
+        hangs = [h for b in r["bursts"][-1:] for h in b["hang"]]
+        res.append((crash_law(log), len(r["bursts"]) - 1, "driver process ended inside this scenario: " + (log[:1500] or " | ".join(hangs)[:1500])))
     prev = None
     stalled = set()
     deleted = set()      # group topics whose deletion completed in an earlier burst
     slow = set(si for si, s in sc.sessions.items() if s.get("cap"))
     broken = set()       # sessions whose in-flight semaphore was already reported stuck
+    dead = set()         # sessions abandoned inside {del user}
+    nleaked = 0
     for bi, b in enumerate(r["bursts"]):
         lines = sc.bursts[bi] if bi < len(sc.bursts) else []
         for l in lines:
@@ -311,16 +358,31 @@ def monitor(sc, r):
                 stalled.add(int(w[2]))
             if w[0] == "i" and w[1] == "unstall":
                 stalled.discard(int(w[2]))
+        for si in b.get("autounstall", ()):
+            stalled.discard(si)
         reqs = requests_of(lines)
         ns = set(b["ns"])
-        for h in b["hang"]:
-            law = "hang"
-            if "inflightReqs" in h or "boundedWaitGroup" in h or b["unstuck"]:
-                law = "session-blocked-on-inflight"
-                if set(b["unstuck"]) <= broken:
-                    continue      # consequence of a loss already reported for this session
-            res.append((law, bi, h[:1500]))
-        broken |= set(b["unstuck"])
+        if not b.get("complete"):
+            continue      # the process ended inside this burst (reported above): nothing was printed at quiescence
+        # ---- goroutines of the server parked for ever
+        nil_done = False
+        for kind, fns in b["parked"]:
+            nleaked += 1
+            if kind == "nil-chan-send" and "topicInit" in fns:
+                nil_done = True
+                res.append(("topicinit-parked-on-nil-done", bi, "topicInit goroutine parked for ever in a send on a nil channel (init_topic.go:95-98, shutDown.done == nil): " + fns))
+            elif kind == "chan-receive" and ("replyDelUser" in fns or "stopTopicsForUser" in fns):
+                if "replyDelUser" in fns:
+                    res.append(("deluser-blocked-on-topic-exit", bi, "{del user} never returns: replyDelUser waits for stopTopicsForUser, which waits for the done signal of a topic that will never send it: " + fns))
+            else:
+                res.append(("hang", bi, "goroutine parked for ever: %s %s" % (kind, fns)))
+        dead |= set(b["abandoned"])
+        for si in b.get("unblocked_stop", ()):
+            u = sc.sessions[si]["user"]
+            n = sum(1 for x in reqs if x["kind"] == "deluser" and sc.sessions[x["si"]]["user"] == u)
+            h = [x for x in b["hang"] if "stopSession" in x]
+            res.append(("session-blocked-on-stop-concurrent-deluser" if n >= 2 else "session-blocked-on-stop", bi,
+                        "session %d: Session.stop (capacity 1) is full and the write loop has left; the read loop blocks for ever in stopSession (%d {del user} of user %d in this burst): %s" % (si, n, u, (h or [""])[0][:700])))
         # ---- replies
         ctrl = {}
         evicted = {}
@@ -334,6 +396,22 @@ def monitor(sc, r):
                     evicted.setdefault(si, set()).add(w[5])
             elif w[0] == "p" and w[3] == "gone":
                 gone.setdefault(si, set()).add(w[4])
+        stuck_now = set(si for si, st in b["sess"].items() if st["inflight"] != 0) | set(b["unstuck"])
+        explained = set()     # sessions whose stuck semaphore is explained by a law reported in this burst
+        # (session, topic): an unsubscribe of its own ({leave unsub}, or {del topic} by a non-owner, which travels through
+        # another queue of the topic and can overtake) was accepted in this burst
+        own_unsub = set()
+        last_held = {}        # session -> its last sub/leave request without a reply (the one that holds the semaphore)
+        for q in reqs:
+            if (q["si"], q["rid"]) in ns:
+                continue
+            got = ctrl.get((q["si"], q["rid"]), [])
+            if q["kind"] == "deltopic":
+                q["nonowner"] = sc.topics[q["k"]].get("owner") != sc.sessions[q["si"]]["user"]
+            if ((q["kind"] == "leave" and q["arg"] == "1") or q.get("nonowner")) and 200 in got:
+                own_unsub.add((q["si"], q["k"]))
+            if q["kind"] in ("sub", "leave") and not got:
+                last_held[q["si"]] = q["rid"]
         for q in reqs:
             if (q["si"], q["rid"]) in ns or q["kind"] == "disc":
                 continue
@@ -341,39 +419,74 @@ def monitor(sc, r):
             st = b["sess"].get(q["si"], {})
             if len(got) > 1:
                 res.append(("reply-duplicated", bi, "request %s (%s) of session %d answered %d times: %s" % (q["rid"], q["kind"], q["si"], len(got), got)))
+            nonowner_del = bool(q.get("nonowner"))
             if q["kind"] not in EXPECT_REPLY or got:
                 continue
-            if q["si"] in slow or q["si"] in stalled or st.get("closed") or st.get("term") or q["si"] in broken:
-                continue      # replies to a closing session or a full send queue are dropped by design
+            stuck = q["si"] in stuck_now and last_held.get(q["si"]) == q["rid"]
+            gone_sess = st.get("closed") or st.get("term")
+            if q["si"] in dead:
+                continue
+            silent_by_design = q["si"] in slow or q["si"] in stalled or gone_sess or q["si"] in broken
+            if silent_by_design and not (stuck and q["kind"] in ("sub", "leave") and q["si"] not in broken):
+                continue      # replies to a full send queue / to a closing session are dropped by design;
+                              # a request that also keeps the in-flight semaphore is judged all the same
+            if q["kind"] == "deluser":
+                continue      # the session is stopped right after the reply is queued
             if q["kind"] == "leave" and str(q["k"]) in evicted.get(q["si"], ()):
                 continue      # the leave crossed the session's eviction: the eviction notice answers it
-            stuck = (st.get("inflight", 0) != 0) or (q["si"] in b["unstuck"])
-            if q["kind"] == "leave" and stuck:
+            # the instance the session points to can have terminated: in this burst, or earlier when the session's
+            # detach notice was still in flight at the last quiescence (stalled writer)
+            exitp = exit_possible(sc, q["k"], lines) or bool(prev and prev["sess"].get(q["si"], {}).get("detachq"))
+            subs_in_burst = any(x["kind"] == "sub" and x["k"] == q["k"] for x in reqs)
+            if q["kind"] == "leave" and stuck and exitp:
                 law = "leave-lost-in-exited-topic"
+                explained.add(q["si"])
+            elif q["kind"] == "leave" and not stuck and (q["si"], q["k"]) in own_unsub:
+                law = "leave-after-own-unsub-unanswered"
             elif q["kind"] == "leave":
                 law = "leave-unanswered"
+            elif q["kind"] == "sub" and stuck and exitp:
+                law = "sub-lost-in-exited-topic"
+                explained.add(q["si"])
+            elif q["kind"] == "sub" and not stuck and exitp:
+                law = "sub-dropped-topic-stopped-while-loading"
             elif q["kind"] == "sub":
                 law = "sub-unanswered"
-            elif q["kind"] == "deltopic" and sc.topics[q["k"]]["owner"] == sc.sessions[q["si"]]["user"] and b["topics"].get(q["k"], {}).get("stored"):
+            elif q["kind"] == "deltopic" and not nonowner_del and subs_in_burst:
                 law = "owner-del-dropped-while-loading"
+            elif nonowner_del and (any(x["kind"] == "deluser" or (x["kind"] == "deltopic" and x["k"] == q["k"] and x["si"] != q["si"]) for x in reqs)
+                                   or any(l.split()[:3] == ["i", "unload", str(q["k"])] for l in lines)):
+                law = "del-lost-in-exited-topic"
             else:
                 law = "del-unanswered"
             res.append((law, bi, "request %s (%s topic %s) of session %d got no reply; session state %s" % (
                 q["rid"], q["kind"], q["k"], q["si"], {k: v for k, v in st.items() if k != "subs"})))
+        # ---- request bookkeeping never blocks a session for ever
+        for si in sorted(stuck_now):
+            if si in broken or si in dead:
+                continue
+            broken.add(si)
+            if si in explained or nil_done:
+                continue      # the lost request / the parked topicInit of this burst is the reported cause
+            st = b["sess"].get(si, {})
+            if si in b["unstuck"]:
+                h = [x for x in b["hang"] if "boundedWaitGroup" in x or "inflightReqs" in x]
+                res.append(("session-blocked-on-inflight", bi, "session %d blocked on its in-flight semaphore (subscribe/leave Add or cleanUp Wait) with nothing left to release it: %s" % (si, (h or [""])[0][:900])))
+            else:
+                res.append(("inflight-stuck", bi, "session %d has %d request(s) in flight at quiescence (its next subscribe/leave and its cleanUp block for ever)" % (si, st.get("inflight", 0))))
+        for h in b["hang"]:
+            if b["unstuck"] or b["parked"] or b["abandoned"] or b.get("unblocked_stop"):
+                continue      # diagnosed above
+            res.append(("hang", bi, h[:1500]))
         # ---- state at quiescence
         for si, st in b["sess"].items():
             live = st["term"] == 0
-            if live and st["inflight"] != 0 and si not in b["unstuck"] and si not in broken:
-                broken.add(si)
-                lost = [q for q in reqs if q["si"] == si and q["kind"] == "leave" and not ctrl.get((si, q["rid"]))]
-                res.append(("leave-lost-in-exited-topic" if lost else "inflight-stuck", bi,
-                            "live session %d has %d request(s) in flight at quiescence (its next subscribe/leave and its cleanUp block forever)" % (si, st["inflight"])))
-            if st["term"] == 1 and st["cleaned"] == 0:
+            if st["term"] == 1 and st["cleaned"] == 0 and si not in dead:
                 res.append(("cleanup-stuck", bi, "session %d is terminating but cleanUp did not finish" % si))
             for k, t in b["topics"].items():
                 a = k in st["subs"]
                 z = t["loaded"] and si in t["sessions"]
-                if live and st["detachq"] == 0 and si not in stalled and a != z:
+                if live and st["detachq"] == 0 and si not in stalled and si not in dead and a != z:
                     res.append(("attach-symmetry", bi, "session %d %s topic %d but the topic (loaded=%s) %s the session" % (
                         si, "lists" if a else "does not list", k, t["loaded"], "lists" if z else "does not list")))
                 if st["term"] == 1 and st["cleaned"] == 1 and z:
@@ -394,11 +507,14 @@ def monitor(sc, r):
                 elif have < 0:
                     res.append(("online-count-negative", bi, "topic %d: online count of user %d is %d" % (k, u, have)))
                 elif have != cnt.get(u, 0):
-                    chan = sc.topics[k]["kind"] == "chn" and u != sc.topics[k]["owner"] and have > cnt.get(u, 0)
+                    chan = sc.topics[k]["kind"] == "chn" and u != sc.topics[k]["owner"] and u not in sc.topics[k]["members"] and have > cnt.get(u, 0)
                     res.append(("online-count-chan-reader" if chan else "online-count", bi, "topic %d: online count of user %d is %d, attached sessions %d" % (k, u, have, cnt.get(u, 0))))
         # ---- deletion
         for q in reqs:
             if q["kind"] == "sub" and q["k"] in deleted:
+                st0 = prev["sess"].get(q["si"], {}) if prev else {}
+                if q["k"] in st0.get("subs", ()) or st0.get("detachq"):
+                    continue      # the session's detach notice was still in flight at the last quiescence (stalled writer)
                 for code in ctrl.get((q["si"], q["rid"]), []):
                     if code < 400:
                         res.append(("deleted-refuses", bi, "subscribe %s to deleted topic %d answered %d" % (q["rid"], q["k"], code)))
@@ -412,27 +528,35 @@ def monitor(sc, r):
             if b["topics"].get(k, {}).get("stored") or b["topics"].get(k, {}).get("loaded"):
                 res.append(("deleted-gone", bi, "topic %d deleted by its owner (200) is still stored/loaded: %s" % (k, b["topics"].get(k))))
                 continue
-            if prev is not None:
-                # sessions which were attached, did nothing that touches the topic or their 'me' in this burst
+            if prev is not None and k not in deleted:
+                # sessions which were attached and did nothing that touches the topic or their 'me' in this burst
                 for si in prev["topics"].get(k, {}).get("sessions", ()):
                     u = sc.sessions[si]["user"]
                     mek = me_of(sc, u)
                     st0, st1 = prev["sess"][si], b["sess"][si]
                     touched = any(x["si"] == si and (x["k"] in (k, mek) or x["kind"] in ("disc", "deluser")) for x in reqs)
-                    if touched or si in slow or si in stalled or st1["term"] or st1["closed"] or mek is None:
+                    if touched or si in slow or si in stalled or si in dead or st1["term"] or st1["closed"]:
                         continue
-                    if mek in st0["subs"] and mek in st1["subs"] and not any(x["kind"] == "deluser" for x in reqs):
-                        if str(k) not in gone.get(si, ()) and str(k) not in evicted.get(si, ()):
-                            res.append(("deleted-told-gone", bi, "session %d was attached to deleted topic %d (and to 'me') and got neither 'gone' nor 'evicted'" % (si, k)))
+                    if any(x["kind"] == "deluser" for x in reqs):
+                        continue
+                    if str(k) in gone.get(si, ()) or str(k) in evicted.get(si, ()):
+                        continue
+                    reader = sc.topics[k]["kind"] == "chn" and u != sc.topics[k]["owner"] and u not in sc.topics[k]["members"]
+                    on_me = mek is not None and mek in st0["subs"] and mek in st1["subs"]
+                    if reader:
+                        law = "deleted-told-gone-chan-reader"
+                    elif not on_me:
+                        law = "deleted-told-gone-not-on-me"
+                    else:
+                        law = "deleted-told-gone"
+                    res.append((law, bi, "session %d (user %d%s%s) was attached to topic %d when its owner deleted it and got neither {pres gone} nor {ctrl evicted}" % (
+                        si, u, ", channel reader" if reader else "", ", attached to 'me'" if on_me else ", not attached to 'me'", k)))
             deleted.add(k)
-        if any(x["kind"] == "deluser" for x in reqs):
-            # owned topics disappear with the account; the later refusal check would need the store: skip those
-            pass
         prev = b
     f = r.get("final")
     if f:
-        if f["goroutines"] != f["baseline"]:
-            res.append(("goroutine-leak", len(r["bursts"]) - 1, "after every session disconnected and every topic was unloaded %s goroutines remain, baseline %s" % (f["goroutines"], f["baseline"])))
+        if int(f["goroutines"]) - int(f.get("leaked", 0)) != int(f["baseline"]):
+            res.append(("goroutine-leak", len(r["bursts"]) - 1, "after every session disconnected and every topic was unloaded %s goroutines remain (%s of them reported as parked for ever), baseline %s" % (f["goroutines"], f.get("leaked", 0), f["baseline"])))
         if f["loaded_topics"] != "1":
             res.append(("topic-leak", len(r["bursts"]) - 1, "topics still loaded after unload of everything: %s" % f["loaded_topics"]))
     return res
